@@ -34,6 +34,10 @@ type Publisher struct {
 // destination. Which may be a file system, or somewhere else of your choosing.
 // If you only wish to generate files you should use a DirectoryFileWriter.
 func NewPublisher(doc *gedcom.Document, options *PublishShowOptions) *Publisher {
+	// Everything a publisher knows about the document is collected now. That
+	// includes the surnames, which are kept between pages.
+	forgetSurnames()
+
 	publisher := &Publisher{
 		doc:          doc,
 		options:      options,
